@@ -282,7 +282,7 @@ def extra_checks(prop, tier, seed, harness, sh):
     failures, lines, stats = [], [], {}
     if prop == "C13":
         # stack depth of the recursive typed API (runtime behaviour outside the Gallina model)
-        for depth, must_pass in ((1000, True), (200000, False)):
+        for depth, must_pass in ((1000, True), (200000, True)):
             rc, out = sh([harness, "deep", str(depth)], timeout=600)
             ok = rc == 0 and "dropped" in out and "same_as_text=true" in out
             lines.append(f"deep cause chain n={depth}: {'ok' if ok else 'process died / wrong (status %d)' % rc}")
@@ -311,7 +311,7 @@ def P(theorems, text, rule, status, **kw):
 
 
 PROPS = {
-    "C01": P(["C01_mapper", "C01_mapper_file", "C01_cache", "C01_index_irrelevant", "C01_unknown_class", "C01_terminator_style", "C01_noise_line", "C01_block_order_irrelevant", "C01_spec_shape", "C01_spec_applies", "C01_spec_range_offset"],
+    "C01": P(["C01_mapper", "C01_mapper_file", "C01_cache", "C01_index_irrelevant", "C01_unknown_class", "C01_terminator_style", "C01_noise_line", "C01_block_order_irrelevant", "C01_spec_shape", "C01_spec_applies", "C01_spec_range_offset", "C01_file_records", "C01_file_independent"],
              "Theorems: the mapper model returns exactly the declarative specification Sline for every record list "
              "(all classes, methods, lines, files), with or without parameter index; the records - hence the answer - "
              "do not depend on terminator style or unparseable lines. Mapper, mapper-without-index and cache of the "
@@ -444,7 +444,7 @@ PROPS = {
              "all clauses proved; memory safety of watto's unsafe casts on aligned buffers is assumed",
              assumptions=["buffers are 8-aligned", "watto's Pod casts are sound (unsafe code not modelled)"]),
     "C13": P(["C13_mapper_never_panics", "C13_writer_counts_do_not_wrap", "C13_writer_counts_exact", "C13_pipeline_total"],
-             "Partial (runtime stack depth). Theorems: for the records of EVERY byte string the mapper's only unchecked "
+             "Partial (runtime stack depth is probed, not proved). Theorems: for the records of EVERY byte string the mapper's only unchecked "
              "subtraction is unreachable (no Panic outcome); the writer's 32-bit counters cannot wrap; for every byte "
              "string below 2 GiB the written structure is well-formed and its bytes parse back to exactly it "
              "(C13_pipeline_total, no domain restriction); the cache reader is panic-free for every buffer (C12). The whole pipeline is run on wild-domain "
@@ -453,8 +453,9 @@ PROPS = {
              "wild grammar mappings, token mutations, token soups, raw bytes x record stream, metadata, cache bytes, class "
              "/ method / line (0, boundaries, 2^32, 2^64-1) / params queries, Unicode trace texts and signatures; "
              "non-trivial = non-empty answer",
-             "panic-freedom proved for the modelled arithmetic; stack exhaustion of the recursive typed API on cause "
-             "chains of about 2*10^4 (known finding F8) is runtime behaviour outside the model",
+             "panic-freedom proved for the modelled arithmetic; stack depth is runtime behaviour outside the model: the "
+             "typed API used to recurse on the cause chain (finding F8, fixed by 5c75dfb) and is probed with chains of "
+             "1000 and 200000 causes on an 8 MiB stack",
              oracle="model"),
     "C10": P(["C10_layout_or_version_bump", "C10_other_version_rejected", "C10_written_version"],
              "Theorems: the record layouts, sentinel defaults and magic read from the current source equal the pinned "
@@ -497,7 +498,7 @@ PROPS = {
              "empty file, corpus files and their CRLF variants, grammar mappings, random bytes with lengths around the "
              "SHA-1 block and padding boundaries (thorough: up to 1 MiB); non-trivial = every case; distinct by bytes",
              "partial: equality of the uuid/sha1_smol code with the model is sampled"),
-    "C19": P(["C19_has_line_info", "C19_summary", "C19_last_header", "C19_is_valid", "C19_window_is_50"],
+    "C19": P(["C19_has_line_info", "C19_summary", "C19_last_header", "C19_is_valid", "C19_window_is_50", "C19_has_line_info_concat", "C19_summary_concat"],
              "Theorems: has_line_info = exists a method record with line mapping anywhere in the complete stream; summary "
              "counts = numbers of class / method records, compiler / version / min-api = value of the last header with "
              "that key; is_valid = a class record followed by a member record within the first 50 items (the window is "
